@@ -95,3 +95,30 @@ def nsp_order_table(ctx):
     if keys:
         return {k: {k} for k in keys}, nsp
     return None, nsp
+
+
+def path_parts(e):
+    """string components of a pathlib expression below the module's own directory, in order: Path(__file__).parent.joinpath("a", "b"),
+    Path(__file__).parent / "a" / "b", os.path.join(os.path.dirname(__file__), "a", "b") -> ["a", "b"]; None when not understood"""
+    if isinstance(e, ast.BinOp) and isinstance(e.op, ast.Div):
+        l, r = path_parts(e.left), path_parts(e.right) if not isinstance(e.right, ast.Constant) else [e.right.value]
+        if l is None or r is None:
+            return None
+        return l + r
+    if isinstance(e, ast.Constant) and isinstance(e.value, str):
+        return [e.value]
+    if isinstance(e, ast.Call) and isinstance(e.func, ast.Attribute) and e.func.attr == "joinpath":
+        base = path_parts(e.func.value)
+        if base is None or not all(isinstance(a, ast.Constant) and isinstance(a.value, str) for a in e.args):
+            return None
+        return base + [a.value for a in e.args]
+    if isinstance(e, ast.Call) and ast.unparse(e.func) == "os.path.join":
+        base = path_parts(e.args[0]) if e.args else None
+        if base is None or not all(isinstance(a, ast.Constant) and isinstance(a.value, str) for a in e.args[1:]):
+            return None
+        return base + [a.value for a in e.args[1:]]
+    t = ast.unparse(e).replace(" ", "")
+    if t in ("Path(__file__).parent", "pathlib.Path(__file__).parent", "os.path.dirname(__file__)", "Path(__file__).resolve().parent",
+             "os.path.dirname(os.path.abspath(__file__))"):
+        return []
+    return None
